@@ -45,6 +45,21 @@ for d in sorted(glob.glob(root + '/C*-*')):
     }
     json.dump(meta, open(os.path.join(d, 'meta.json'), 'w'), indent=1)
     rows.append((name, title, caught, silent, other))
+lines = ['| change | what it does | caught by (quick tier, default seed) | silent | ',
+         '|---|---|---|---|']
 for name, title, caught, silent, other in rows:
-    t = re.sub(r'^(Change|C\d\d)[^:—-]*[:—-]+\s*', '', title)
-    print('| %s | %s | %s | %s |' % (name, t[:110], ', '.join(caught) or '—', ', '.join(silent + [o + ' (exit 2)' for o in other]) or '—'))
+    t = re.sub(r'^(C\d\d\s*)?(/\s*)?(seeded\s*)?(change|seed)\s*\d*\s*[:—–-]+\s*', '', title, flags=re.I)
+    lines.append('| %s | %s | %s | %s |' % (name, t[:140].replace('|', '\\|'), ', '.join(caught) or '—',
+                                        ', '.join(silent + [o + ' (exit 2)' for o in other]) or '—'))
+ncaught = sum(1 for r in rows if r[2])
+own = sum(1 for r in rows if r[0].split('-')[0] in r[2])
+summary = '%d changes; %d caught by at least one check run against them, %d by the check of their own property.' % (len(rows), ncaught, own)
+block = '<!-- seeded-table-begin -->\n' + summary + '\n\n' + '\n'.join(lines) + '\n<!-- seeded-table-end -->'
+d = open('/verif/DESIGN.md').read()
+if '<!-- seeded-table-begin -->' in d:
+    d = re.sub(r'<!-- seeded-table-begin -->.*?<!-- seeded-table-end -->', lambda m: block, d, flags=re.S)
+    open('/verif/DESIGN.md', 'w').write(d)
+print(summary)
+for r in rows:
+    if not r[2]:
+        print('NOT CAUGHT:', r[0], r[1][:100], 'silent:', r[3], 'other:', r[4])
